@@ -2,6 +2,7 @@ import AquaVerif.Proofs.RunTotalExample
 import AquaVerif.Proofs.RunTotalCatalogue
 import AquaVerif.Proofs.RunTotal
 import AquaVerif.Proofs.CropCalendar
+import AquaVerif.Proofs.PrepareGdd
 import AquaVerif.Proofs.CropFull
 import AquaVerif.Proofs.Clock
 import AquaVerif.Proofs.ClockCalendar
@@ -289,6 +290,18 @@ theorem yield_formation_days_positive {F : Fn α} {c : CalGDDIn α} {temps : Lis
     (h0 : 0 ≤ c.hiStart) (hy : c.tupp - c.tbase ≤ c.yldForm)
     (hm : c.hiStart + c.yldForm ≤ c.maturity) : 0 < o.days.yldFormCD :=
   calendarInit_yldFormCD_pos h hb h0 hy hm
+
+/-- **`SwitchGDD = 1`** (`prepare_gdd`): the conversion of a calendar-day crop to thermal time
+returns exactly when the `season` column exists (a planting date inside the window), no row of the
+window is left unlabelled and every calendar-day position used is a valid position in *every* season
+present — so a window that ends fewer than `MaturityCD + 1` days into its last season makes the whole
+initialisation raise `IndexError` (recorded finding `switchgdd-short-last-season`). -/
+theorem switchgdd_conversion_succeeds_iff (toInt : α → Int) (cropType : Nat) (hasCol : Bool)
+    (sumFun : Nat) (s : GddStagesIn α) (old : GddStages α) (rows : List (Option Nat × α)) :
+    (∃ g, prepareGdd toInt cropType hasCol sumFun s old rows = .ok g) ↔
+      hasCol = true ∧ (∀ r ∈ rows, r.1 ≠ none) ∧
+      (∀ k, some k ∈ rows.map (·.1) → StagesInRange toInt cropType s (seasonLen rows k)) :=
+  prepareGdd_ok_iff toInt cropType hasCol sumFun s old rows
 
 /-- **Every run of a catalogue configuration terminates without raising** (over `ℝ`): `CatCfg`
 (crops from the generated table, profile and initial water content built by the model of the
